@@ -99,7 +99,7 @@ def programs(seed, n, syms=gen.SYMS, kinds=("abelian", "fermionic"), tids=None, 
         rng = gen.rng_for(seed, "linalg", i)
         sym = syms[i % len(syms)]
         kind = kinds[(i // len(syms)) % len(kinds)]
-        family = rng.choice(["monomial", "monomial", "monomial_deficient", "float", "float_fused"])
+        family = rng.choice(["monomial", "monomial", "monomial_deficient", "float", "float_fused", "float_tall"])
         dtype = rng.choice(["float64", "float64", "complex128", "float32"]) if family.startswith("float") else "float64"
         inputs, steps = {}, []
         if family == "float_fused":
@@ -112,6 +112,17 @@ def programs(seed, n, syms=gen.SYMS, kinds=("abelian", "fermionic"), tids=None, 
             rng.shuffle(axes)
             k = rng.randint(1, rank - 1)
             steps.append({"op": "fuse", "in": ["t"], "out": ["x"], "args": {"groups": [axes[:k], axes[k:]]}})
+            decomposition_steps(rng, kind, steps, "x", exact=False)
+        elif family == "float_tall":
+            # very tall blocks (24-40 rows, 2-3 columns) with singular values 1, 1e-3, 1e-6: condition number 1e6
+            xx = matrix(rng, sym, kind, pattern="monomial", dtype=rng.choice(["float64", "complex128"]), maxc=2, sparse=0.0)
+            for e in xx["ix"][0]["cm"]:
+                e["d"] = rng.randint(24, 40)
+            for e in xx["ix"][1]["cm"]:
+                e["d"] = rng.randint(2, 3)
+            xx["fill"] = {"start": rng.randint(1, 9), "step": 1, "pattern": "illcond"}
+            xx["drop"] = []
+            inputs["x"] = xx
             decomposition_steps(rng, kind, steps, "x", exact=False)
         else:
             inputs["x"] = matrix(rng, sym, kind, pattern=family if family != "float" else "monomial",
@@ -304,5 +315,15 @@ def dtype_programs(seed, n, syms=gen.SYMS, kinds=("abelian", "fermionic"), tids=
         steps.append({"op": "norm", "in": ["x"], "out": ["nx"], "args": {}})
         steps.append({"op": "multiply_diagonal", "in": ["vh", "s"], "out": ["svh"], "args": {"axis": 0}})
         steps.append({"op": "multiply_diagonal", "in": ["v", "w"], "out": ["vw"], "args": {"axis": 1}})
-        progs.append({"tid": tids(), "inputs": {"x": x, "h": h}, "steps": steps})
+        # operands of DIFFERENT element types: products take the common type (a real array scaled by complex weights, ...)
+        from .algebra import vector_desc
+        other = {"float32": "complex64", "float64": "complex128", "complex64": "float32", "complex128": "float64"}[dtype]
+        g = vector_desc(rng, sym, ix=x["ix"][0], start=3, dtype=other)
+        y = dict(x, dtype=other, fill={"start": 40, "step": 1, "alt": True})
+        for ent in ("method", "symmray", "autoray"):
+            steps.append({"op": "multiply_diagonal", "in": ["x", "g"], "out": [f"xg_{ent[0]}"], "args": {"axis": 0}, "entry": ent})
+        steps.append({"op": "mul", "in": ["x", "y"], "out": ["xy"], "args": {}})
+        steps.append({"op": "conj", "in": ["y"], "out": ["yc"], "args": {}})
+        steps.append({"op": "tensordot", "in": ["x", "yc"], "out": ["xyc"], "args": {"axes": [[0, 1], [0, 1]], "preserve_array": True}, "entry": "symmray"})
+        progs.append({"tid": tids(), "inputs": {"x": x, "h": h, "g": g, "y": y}, "steps": steps})
     return progs
